@@ -205,10 +205,11 @@ def part_b(case: dict, rng) -> tuple[list[dict], dict, bool]:  # noqa: ANN001
         spec["components"].append({"kind": "parameter", "name": "kmm", "value": round(rng.uniform(0.3, 2), 3)})
         spec["components"].append({"kind": "reaction", "name": "vmm", "fn": fl.ref(tr.t_mm), "args": ["x0", "vm", "kmm"], "stoich": {"x0": -1, net.variables[-1]: 1}})
     t_end = rng.choice([1.0, 2.5, 5.0])
-    second = rng.random() < 0.5  # parameter change between two segments: the Jacobian must follow
+    second = rng.random() < 0.6  # parameter change between two segments: the Jacobian must follow
+    how_second = rng.choice(["simulator", "model", "protocol"])
     results = {}
     jac_used = False
-    ctx = {"kind": kind, "net": net.to_json(), "t_end": t_end, "two_segments": second}
+    ctx = {"kind": kind, "net": net.to_json(), "t_end": t_end, "two_segments": second, "second_through": how_second if second else None}
     for method in ("Radau", "BDF", "LSODA"):
         for uj in (False, True):
             model = rm.build(spec)
@@ -227,10 +228,37 @@ def part_b(case: dict, rng) -> tuple[list[dict], dict, bool]:  # noqa: ANN001
             try:
                 sim.simulate(t_end, steps=8)
                 if second:
-                    pk = list(net.params)[0]
-                    sim.update_parameter(pk, net.params[pk] * 2.0)
-                    sim.simulate(t_end * 2, steps=8)
+                    # (a rate constant of a first-order step: the Jacobian depends on it; the influx constant does not enter it)
+                    pk = next((r_["k"] for r_ in net.rxns if r_.get("sub")), list(net.params)[0])
+                    if how_second == "simulator":
+                        sim.update_parameter(pk, net.params[pk] * 2.0)
+                        sim.simulate(t_end * 2, steps=8)
+                    elif how_second == "model":
+                        sim.model.update_parameter(pk, net.params[pk] * 2.0)  # the model the simulator works on, edited directly
+                        sim.simulate(t_end * 2, steps=8)
+                    else:
+                        from mxlpy import make_protocol
+
+                        sim.simulate_protocol(make_protocol([(t_end / 2, {pk: net.params[pk] * 2.0}), (t_end / 2, {pk: net.params[pk] * 3.0})]), time_points_per_step=4)
                 res = sim.get_result().value
+                jf_now = getattr(sim.integrator, "jacobian", None) if uj else None
+                if jf_now is not None and not isinstance(res, Exception):
+                    # the Jacobian the integrator holds now is the derivative of the right-hand side it integrates now
+                    names_ = sim.model.get_variable_names()
+                    y_ = res.get_variables(include_derived_variables=False, include_readouts=False, include_surrogate_variables=False).iloc[-1][names_].to_numpy(dtype=float)
+                    t_ = float(res.get_variables(include_derived_variables=False, include_readouts=False, include_surrogate_variables=False).index[-1])
+                    J = np.asarray(jf_now(t_, y_), dtype=float)
+                    fd = np.zeros_like(J)
+                    for j_ in range(len(y_)):
+                        h_ = 1e-6 * max(1.0, abs(y_[j_]))
+                        yp, ym = y_.copy(), y_.copy()
+                        yp[j_] += h_
+                        ym[j_] -= h_
+                        fd[:, j_] = (np.asarray(sim.model(t_, yp), dtype=float) - np.asarray(sim.model(t_, ym), dtype=float)) / (2 * h_)
+                    counters["integrator_jacobians_compared_with_differences_of_the_right_hand_side"] = counters.get("integrator_jacobians_compared_with_differences_of_the_right_hand_side", 0) + 1
+                    if J.shape != fd.shape or not np.allclose(J, fd, rtol=1e-5, atol=1e-6):
+                        viols.append(core.viol(f"the Jacobian the integrator holds is not the derivative of the right-hand side it integrates [{method}]", None, method=method, jacobian=J.tolist(), finite_differences=fd.tolist(),
+                                               parameter_changed_through=how_second if second else None, **ctx))
             except Exception as e:  # noqa: BLE001
                 viols.append(core.viol(f"simulation with use_jacobian={uj} raised [{method}]", None, error=f"{type(e).__name__}: {e}"[:300], method=method, **ctx))
                 continue
